@@ -1167,7 +1167,17 @@ def percent_format(sx, fmt, arg, st, node):
         return [R(st, None, Exc("TypeError"))]
     out = []
     for s, ts in states:
-        out.append(R(s, Val(fmt.ty, z3.Concat(*ts) if len(ts) > 1 else (ts[0] if ts else z3.StringVal("")))))
+        r = Val(fmt.ty, z3.Concat(*ts) if len(ts) > 1 else (ts[0] if ts else z3.StringVal("")))
+        if ts and isinstance(fmt.ty, V._Str):
+            cls = classes_of(sx, ts, s)
+            if all(c is not None for c in cls):
+                # derived fact: the formatted text lies in the concatenation of the parts' languages
+                c = z3.Concat(*cls) if len(cls) > 1 else cls[0]
+                if sx.spec_mode:
+                    r.aux = {"re": c}
+                else:
+                    sx.with_class(r, c, s)
+        out.append(R(s, r))
     return out
 
 
